@@ -119,6 +119,8 @@ class Prop(core.Prop):
         if len(dims) == 1:
             for f in DICTKW:
                 yield {'file': group['file'], 'funcs': [[dims[0], list(f)]]}
+            for f in (('r', 'mean'), ('f', 'sub2'), ('f', 'first')):
+                yield {'file': group['file'], 'funcs': [[dims[0], list(f)]], 'names': True}
             for f in DICTFN:
                 yield {'file': group['file'], 'funcs': [[dims[0], list(f)]]}
             for r in STRRED:
@@ -196,6 +198,12 @@ class Prop(core.Prop):
         real = lib.to_real(rfile.ufile(case['file']))
         if case.get('fuzzy'):
             real = self.add_fuzzy(real)
+        if case.get('names'):
+            # station names (4-character strings) along a dimension of their own: never touched
+            real.createDimension('site', 2)
+            nv = real.createVariable('names', 'S4', ('site',))
+            nv.units = 'id'
+            nv[...] = np.array([b'KATL', b'KBOS'])
         rf = lib.snap(real, cls='PseudoNetCDFFile')
         before = rfile.canon(rf)
         dimfuncs = OrderedDict((d, tuple(f)) for d, f in case['funcs'])
